@@ -167,6 +167,19 @@ func (a *avsRun) run(long bool) {
 	w.Fund(outsider)
 	outsiderOp := &avsOp{o: &ops.Oper{Acct: outsider}, sk: blsKey("outsider")}
 
+	// delegations by stakers that are not the operators' own: for these operators the total value lies above the
+	// self-delegated value, and the AVS minimums below are drawn around the self-delegated values
+	for k, o := range w.Opers {
+		if r.Intn(2) == 0 {
+			continue
+		}
+		addr := common.HexToAddress(fmt.Sprintf("0x%040x", 0xabc000+k)).Bytes()
+		sk := &ops.Staker{Lz: lst.Lz, Addr: addr, ID: sim.StakerID(lst.Lz, addr)}
+		w.Stakers = append(w.Stakers, sk)
+		amt := sdkmath.NewInt(int64(50+r.Intn(800)) * 1_000_000)
+		w.Deposit(sk, lst, amt)
+		w.Delegate(sk, lst, o, amt)
+	}
 	// --- registry -------------------------------------------------------------------------------------------
 	nAVS := 1 + (r.Intn(3)+1)/2 // two AVSs in two thirds of the histories
 	for k := 0; k < nAVS; k++ {
@@ -174,8 +187,13 @@ func (a *avsRun) run(long bool) {
 		w.Fund(acct)
 		a.avs = append(a.avs, acct)
 		minSelf := uint64(0)
-		if r.Intn(4) == 0 {
+		switch r.Intn(8) {
+		case 0:
 			minSelf = uint64(1 + r.Intn(1_000_000_000))
+		case 1, 2, 3:
+			// at, just above or well above the self-delegated value of one of the operators
+			self := cfg.Operators[r.Intn(len(cfg.Operators))].SelfStake
+			minSelf = uint64(self + []int64{0, 1, 1, 30, 30, 200}[r.Intn(6)])
 		}
 		taskAcct := acct
 		if r.Intn(2) == 0 {
@@ -330,6 +348,7 @@ func (a *avsRun) judgeRegister(st *ops.Step, avs *sim.Account, task common.Addre
 func (a *avsRun) optIn(op *avsOp, avs string) {
 	w, s := a.w, a.s
 	isOp := w.C.App.OperatorKeeper.IsOperator(w.C.Ctx(), op.o.Acct.Acc)
+	pre := w.Last
 	st := w.CosmosStep("avs_optin", op.o.Acct, sim.CosmosTxOpts{}, map[string]string{"avs": avs, "operator": op.o.Acct.Name}, &operatortypes.OptIntoAVSReq{FromAddress: op.o.Acct.Acc.String(), AvsAddress: avs})
 	s.Eval("opt-in")
 	s.Case(fmt.Sprintf("avs_optin|avs-registered=%v|operator-registered=%v|ack=%v", a.reg[low(avs)], isOp, st.Ack))
@@ -344,12 +363,20 @@ func (a *avsRun) optIn(op *avsOp, avs string) {
 			a.optedIn[low(avs)] = map[string]bool{}
 		}
 		a.optedIn[low(avs)][op.o.Addr()] = true
-		// minimum self delegation: the stored requirement must be met by the operator's self-delegated value
-		if info, err := w.C.App.AVSManagerKeeper.GetAVSInfo(w.C.Ctx(), avs); err == nil && info.Info.MinSelfDelegation > 0 {
+		// minimum self delegation: the stored requirement must be met by the operator's self-delegated value, computed
+		// here from the pool of the state before the opt-in (this engine's AVSs accept the first genesis asset only:
+		// 6 decimals, price 1): self tokens = OperatorShare x TotalAmount / TotalShare, one base unit of rounding allowed
+		if info, err := w.C.App.AVSManagerKeeper.GetAVSInfo(w.C.Ctx(), avs); err == nil && info.Info.MinSelfDelegation > 0 && pre != nil && len(info.Info.AssetIDs) == 1 && info.Info.AssetIDs[0] == w.Assets[0].ID {
 			s.Eval("opt-in-minimum-self-delegation")
-			v, err := w.C.App.OperatorKeeper.GetOperatorOptedUSDValue(w.C.Ctx(), avs, op.o.Addr())
-			if err == nil && v.SelfUSDValue.LT(sdkmath.LegacyNewDec(int64(info.Info.MinSelfDelegation))) {
-				s.Violate("opt-in-below-minimum-self-delegation", "", a.hist, st.I, "operator %s opted into %s with self value %s below the minimum %d", op.o.Acct.Name, avs, v.SelfUSDValue, info.Info.MinSelfDelegation)
+			self := new(big.Int)
+			if pool, ok := pre.Ledger.Operator[op.o.Addr()+"/"+w.Assets[0].ID]; ok && pool.TotalShare.IsPositive() {
+				self.Mul(pool.OperatorShare.BigInt(), pool.TotalAmount.BigInt())
+				self.Quo(self, pool.TotalShare.BigInt())
+			}
+			need := new(big.Int).Mul(new(big.Int).SetUint64(info.Info.MinSelfDelegation), big.NewInt(1_000_000))
+			s.Case(fmt.Sprintf("avs_optin|minimum>0|accepted|self-at-minimum=%v", self.Cmp(need) == 0))
+			if new(big.Int).Add(self, big.NewInt(1)).Cmp(need) < 0 {
+				s.Violate("opt-in-below-minimum-self-delegation", "", a.hist, st.I, "operator %s opted into %s with self-delegated amount %s (base units of a 6-decimal asset priced 1) below the minimum %d", op.o.Acct.Name, avs, self, info.Info.MinSelfDelegation)
 			}
 		}
 	}
